@@ -73,7 +73,17 @@ def callee_strengths_und(eng, st, args, kw, node):
     return core.Row(m.shape[0], lambda q: core.csum(t, q, n), core.REAL)
 
 
-DEFAULT_CALLEES = {'degrees_und': callee_degrees_und, 'degrees_dir': callee_degrees_dir, 'strengths_und': callee_strengths_und, 'pick_four_unique_nodes_quickly': callee_pick_four, 'get_rng': callee_get_rng, 'number_of_components': callee_number_of_components}
+def callee_teachers_round(eng, st, args, kw, node):
+    """contract of bct.utils.teachers_round (proved separately, contracts/utils.py): the nearest integer, exact halves away from zero."""
+    import z3
+    x = core.to_z3(args[0], core.REAL)
+    r = core.fresh('tround', core.INT)
+    rr = z3.ToReal(r)
+    st.pc += [rr >= x - z3.RealVal('1/2'), rr <= x + z3.RealVal('1/2'), z3.Implies(rr - x == z3.RealVal('1/2'), x > 0), z3.Implies(x - rr == z3.RealVal('1/2'), x < 0)]
+    return r
+
+
+DEFAULT_CALLEES = {'teachers_round': callee_teachers_round, 'round': callee_teachers_round, 'degrees_und': callee_degrees_und, 'degrees_dir': callee_degrees_dir, 'strengths_und': callee_strengths_und, 'pick_four_unique_nodes_quickly': callee_pick_four, 'get_rng': callee_get_rng, 'number_of_components': callee_number_of_components}
 
 
 def generate(contract, callees=None):
